@@ -123,6 +123,7 @@ class ModelGen:
         self.interfaces: List[Tuple[List[str], M.Interface, NsNode]] = []
         self.components: List[Tuple[List[str], Any, NsNode]] = []
         self.extern_counter = 0
+        self.mc_interfaces: List[Any] = []
 
     # -- helpers ------------------------------------------------------------------------------
     def _rint(self, lohi: Tuple[int, int]) -> int:
@@ -238,6 +239,77 @@ class ModelGen:
         ent = (fqn, itf, node)
         self.interfaces.append(ent)
         return ent
+
+    def add_mc_interface(self, node: Optional[NsNode] = None, decoys: bool = True):
+        """An interface usable as multi-client port: an in-event replying an enum (claim), a
+        void in-event (release), both of arbitrary names and formals, optional decoy events
+        literally called Claim/Release, further in- and out-events.  Returns
+        (entry, {'claim','release','enum_fqn','fields'})."""
+        rng = self.rng
+        node = node or self._pick_node()
+        name = self._name(node, 'camel')
+        itf = M.Interface([name])
+        fqn = node.fqn + [name]
+        nested = rng.random() < 0.5
+        if nested or not [e for e in self.enums if self._enum_visible(e[0], fqn)]:
+            en = fresh(rng, set(), 'camel')
+            enum = M.Enum([en], self._enum_fields() + [fresh(rng, set(), 'camel') + 'Z'])
+            enum.fields = list(dict.fromkeys(enum.fields))
+            itf.types.append(enum)
+            enum_fqn = fqn + [en]
+            self.enums.append((enum_fqn, enum))
+        else:
+            enum_fqn, enum = rng.choice([e for e in self.enums if self._enum_visible(e[0], fqn)])
+        self._place(node, itf)
+        ent = (fqn, itf, node)
+        self.interfaces.append(ent)
+        taken = {t.name[0] for t in itf.types if not isinstance(t, M.Unknown)}
+        literal = rng.random() < 0.3
+        claim = 'Claim' if literal else fresh(rng, taken, rng.choice(['camel', 'snake', 'digit']))
+        release = 'Release' if literal else fresh(rng, taken, rng.choice(['camel', 'snake', 'digit']))
+        taken.update([claim, release])
+
+        def formals(direction):
+            out, ftaken = [], set()
+            for _ in range(rng.randint(0, 3)):
+                if not self.externs:
+                    break
+                xt, _x = rng.choice(self.externs)
+                ref = self._ref(fqn, xt, 'externs')
+                if ref is None:
+                    continue
+                fdir = 'in' if direction == 'out' else rng.choice(['in', 'out', 'inout'])
+                out.append(M.Formal(fresh(rng, ftaken, rng.choice(['single', 'snake', 'digit'])),
+                                    ref, fdir))
+            return out
+
+        reply = self._ref(fqn, enum_fqn, 'enums')
+        if reply is None:
+            reply = M.Ref(list(enum_fqn), '.'.join(enum_fqn))
+        events = [M.Event(claim, 'in', reply, formals('in')),
+                  M.Event(release, 'in', M.Ref(['void']), formals('in'))]
+        if decoys and not literal:
+            if rng.random() < 0.5:
+                events.append(M.Event('Claim', 'in', M.Ref(list(reply.ids), reply.target),
+                                      formals('in')))
+                taken.add('Claim')
+            if rng.random() < 0.5:
+                events.append(M.Event('Release', 'in', M.Ref(['void']), formals('in')))
+                taken.add('Release')
+        for _ in range(rng.randint(0, 3)):
+            events.append(M.Event(fresh(rng, taken, rng.choice(['camel', 'snake', 'single'])), 'in',
+                                  rng.choice([M.Ref(['void']), M.Ref(['bool']),
+                                              M.Ref(list(reply.ids), reply.target)]),
+                                  formals('in')))
+        for _ in range(rng.randint(1, 3)):
+            events.append(M.Event(fresh(rng, taken, rng.choice(['camel', 'snake', 'single'])), 'out',
+                                  M.Ref(['void']), formals('out')))
+        rng.shuffle(events)
+        itf.events = events
+        info = {'claim': claim, 'release': release, 'enum_fqn': list(enum_fqn),
+                'fields': list(enum.fields), 'itf_fqn': list(fqn)}
+        self.mc_interfaces.append((ent, info))
+        return ent, info
 
     def decls(self):
         return M.declared_names(self.model)
@@ -358,6 +430,36 @@ class ModelGen:
                     {'<class>': rng.choice(['extern', 'bool', 'int', 'bogus']),
                      'name': {'<class>': 'scope_name', 'ids': [ident(rng)]}}))
 
+    def respell_all(self) -> bool:
+        """Re-choose the spelling of every reference against the final declaration set (later
+        additions may have made an earlier spelling ambiguous).  False if some reference has
+        no unambiguous spelling at all."""
+        decls = self.decls()
+        kind_of = {'.'.join(f): k for k, f, _o in decls}
+        ok = True
+
+        def fix(ref: M.Ref, scope: List[str]):
+            nonlocal ok
+            if ref.target is None:
+                return
+            target = ref.target.split('.')
+            kind = kind_of.get(ref.target)
+            sp = M.valid_spellings(decls, scope, target, kind) if kind else []
+            if not sp:
+                ok = False
+            elif ref.ids not in sp:
+                ref.ids = self.rng.choice(sp)
+
+        for fqn, itf, _node in self.interfaces:
+            for ev in itf.events:
+                fix(ev.reply, fqn)
+                for formal in ev.formals:
+                    fix(formal.type, fqn)
+        for _fqn, comp, node in self.components:
+            for port in comp.ports:
+                fix(port.type, node.fqn)
+        return ok
+
     # -- whole model --------------------------------------------------------------------------
     def generate(self) -> 'ModelGen':
         o = self.o
@@ -370,8 +472,10 @@ class ModelGen:
             self.add_subint()
         for _ in range(self._rint(o.n_interfaces)):
             self.add_interface()
-        for ent in self.interfaces:
+        for ent in list(self.interfaces):
             self.fill_events(ent)
+        if o.want_multiclient:
+            self.add_mc_interface()
         for _ in range(self._rint(o.n_foreigns)):
             self.add_component('foreign')
         for _ in range(self._rint(o.n_components)):
@@ -380,6 +484,7 @@ class ModelGen:
             self.add_component('system')
         if o.noise and self.rng.random() < o.noise:
             self.add_noise()
+        self.well_formed = self.respell_all()
         return self
 
     # -- views --------------------------------------------------------------------------------
